@@ -689,6 +689,94 @@ Section C12_whole_state.
     s_vort u1' k a l = s_vort (Sst u1) k a l /\ s_div u1' k a l = s_div (Sst u1) k a l /\
     s_temp u1' k a l = s_temp (Sst u1) k a l /\ s_lnps u1' a l = s_lnps (Sst u1) a l.
   Proof. intros Ht Hk Ha Hl. eapply whole_state_step_covariant_partial; eassumption. Qed.
+  (** tracers (dimensionless, any number): the n-th tracer tendency of explicit_terms_full scales with kr
+      (= 1/time); implicit_terms_full returns zero tracers under both scales *)
+  Theorem C12_whole_state_tracers_covariant (s : @State F) n k a l :
+    (n < length (s_tr s))%nat -> (k < cK c)%nat -> (a < hR g)%nat -> (l < hL g)%nat ->
+    (nth n (s_tr (explicit_terms_full g' c' (ku * kr * grav) (fun a l => kL * orog a l) (Sst s))) zero3 k a l
+     = kr * nth n (s_tr (explicit_terms_full g c grav orog s)) zero3 k a l) /\
+    (s_tr (implicit_terms_full g' c' (Sst s)) = s_tr (implicit_terms_full g c s)) /\
+    (forall t, In t (s_tr (implicit_terms_full g c s)) -> t = zero3).
+  Proof. intros Hn Hk Ha Hl. eapply whole_state_tracers_covariant; eassumption. Qed.
+
+  (** ROUND 2: the implicit solve, the state space and every integrator. *)
+  Variable tau : F.
+  Hypothesis H_time : tau * kr = 1.
+  Hypothesis th0_nz : thickness (cb c) 0%nat <> 0.
+  Hypothesis thK_nz : thickness (cb c) (cK c - 1)%nat <> 0.
+
+  (** implicit_inverse_full (method 'split') with the rescaled step: [invt l] = np.linalg.inv of the
+      implicit matrix for total wavenumber l has to be a right inverse under the first and a left
+      inverse under the second scale (the plugin checks two-sidedness under every scale) *)
+  Theorem C12_whole_state_inverse_covariant (eta : F) (invt invt' : nat -> @Mat F) (y : @State F) k a l :
+    is_left_inverse (2 * cK c + 1) (implicit_matrix c eta (Deriv.lap_eig (hL g) (hr g) l)) (invt l) ->
+    is_left_inverse (2 * cK c + 1) (invt' l) (implicit_matrix c' (tau * eta) (Deriv.lap_eig (hL g') (hr g') l)) ->
+    let Z := implicit_inverse_full g c eta invt y in
+    let Z' := implicit_inverse_full g' c' (tau * eta) invt' (Sst y) in
+    col_eq (cK c) (col_of Z' a l) (col_of (Sst Z) a l) /\ s_vort Z' k a l = s_vort (Sst Z) k a l.
+  Proof. intros Hr Hl. eapply whole_state_inverse_covariant; eassumption. Qed.
+
+  (** the model functions only read the index range (so "the state" is its in-range part) *)
+  Theorem C12_whole_state_reads_range (g0 : @HGrid F) (c0 : @PEcfg F) grav0 orog0 eta invt0 (s1 s2 : @State F) k a l :
+    agree (cK c0) (hR g0) (hL g0) s1 s2 -> (k < cK c0)%nat -> (a < hR g0)%nat -> (l < hL g0)%nat ->
+    (s_vort (explicit_terms_full g0 c0 grav0 orog0 s1) k a l = s_vort (explicit_terms_full g0 c0 grav0 orog0 s2) k a l /\
+     s_div (explicit_terms_full g0 c0 grav0 orog0 s1) k a l = s_div (explicit_terms_full g0 c0 grav0 orog0 s2) k a l /\
+     s_temp (explicit_terms_full g0 c0 grav0 orog0 s1) k a l = s_temp (explicit_terms_full g0 c0 grav0 orog0 s2) k a l /\
+     s_lnps (explicit_terms_full g0 c0 grav0 orog0 s1) a l = s_lnps (explicit_terms_full g0 c0 grav0 orog0 s2) a l) /\
+    col_eq (cK c0) (col_of (implicit_terms_full g0 c0 s1) a l) (col_of (implicit_terms_full g0 c0 s2) a l) /\
+    col_eq (cK c0) (col_of (implicit_inverse_full g0 c0 eta invt0 s1) a l) (col_of (implicit_inverse_full g0 c0 eta invt0 s2) a l).
+  Proof.
+    intros Hag Hk Ha Hl. split; [exact (explicit_terms_full_ext g0 c0 grav0 orog0 s1 s2 k a l Hag Hk Ha Hl)|].
+    split; [now apply implicit_terms_full_ext | now apply implicit_inverse_full_ext].
+  Qed.
+
+  (** the in-range part of State as a vector space ([StOps]: operations return normal forms, so the
+      vector-space laws are equalities); S = change of scale; the model functions composed with [norm] *)
+  Variables invt invt' : F -> nat -> @Mat F.
+  Notation SV := (StOps g c).
+  Notation S := (Sc (vo := StOps g c) (Lst kr kT g c) (c0st g shift c)).
+  Notation Fx0 := (FxS g c grav orog).
+  Notation Fx1 := (FxS' ku kr kT kR kL g c grav orog).
+  Notation G0 := (GS g c).
+  Notation G1 := (GS' kr kT kR kL g c).
+  Notation Gi0 := (GinvS g c invt).
+  Notation Gi1 := (GinvS' kr kT kR kL g c invt').
+  Notation ok := (okS kr kT kR kL g c tau invt invt').
+
+  (** S is the rescaling of the property on the index range, and Fx0/G0/Gi0 are the model functions there *)
+  Theorem C12_whole_state_space (u : @State F) eta k a l :
+    (k < cK c)%nat -> (a < hR g)%nat -> (l < hL g)%nat ->
+    agree (cK c) (hR g) (hL g) (S u) (Sst u) /\
+    s_div (Fx0 u) k a l = s_div (explicit_terms_full g c grav orog u) k a l /\
+    s_temp (G0 u) k a l = s_temp (implicit_terms_full g c u) k a l /\
+    s_lnps (Gi0 u eta) a l = s_lnps (implicit_inverse_full g c eta (invt eta) u) a l.
+  Proof.
+    intros Hk Ha Hl. split; [eapply ScS_agrees|].
+    unfold FxS, GS, GinvS, norm, mk4. cbn [s_div s_temp s_lnps]. unfold cl3, cl2.
+    rewrite (inr3_true g c k a l Hk Ha Hl), (inr2_true g a l Ha Hl). repeat split.
+  Qed.
+
+  (** every integrator of time_integration.py (Model/Integrators.v) applied to the whole-state model:
+      one step of the rescaled problem with time step tau * dt from the rescaled state = the rescaled step *)
+  Theorem C12_whole_state_step_covariant dt alpha al be ga a_ex a_im b_ex b_im u p q :
+    (ok dt -> euler_step (vo := SV) Fx1 Gi1 (tau * dt) (S u) = S (euler_step (vo := SV) Fx0 Gi0 dt u)) /\
+    (ok (half * dt) -> cn_rk2_step (vo := SV) Fx1 G1 Gi1 (tau * dt) (S u) = S (cn_rk2_step (vo := SV) Fx0 G0 Gi0 dt u)) /\
+    (ls_ok ok dt al -> ls_step (vo := SV) Fx1 G1 Gi1 (tau * dt) al be ga (S u) = S (ls_step (vo := SV) Fx0 G0 Gi0 dt al be ga u)) /\
+    (imex_ok ok dt 1 a_im ->
+       imex_step (vo := SV) Fx1 G1 Gi1 (tau * dt) a_ex a_im b_ex b_im (S u)
+       = option_map S (imex_step (vo := SV) Fx0 G0 Gi0 dt a_ex a_im b_ex b_im u)) /\
+    (ok (two * dt * alpha) ->
+       leapfrog_step (vo := SV) Fx1 G1 Gi1 (tau * dt) alpha (S p, S q)
+       = (S (fst (leapfrog_step (vo := SV) Fx0 G0 Gi0 dt alpha (p, q))),
+          S (snd (leapfrog_step (vo := SV) Fx0 G0 Gi0 dt alpha (p, q))))).
+  Proof. eapply whole_state_step_covariant; eassumption. Qed.
+
+  (** any number of filtered steps *)
+  Theorem C12_whole_state_trajectory_covariant (step step' : @State F -> @State F) (fl fl' : list (@State F -> @State F -> @State F)) :
+    (forall u, step' (S u) = S (step u)) ->
+    Forall2 (fun f' f => forall u w, f' (S u) (S w) = S (f u w)) fl' fl ->
+    forall n u, Nat.iter n (step_with_filters step' fl') (S u) = S (Nat.iter n (step_with_filters step fl) u).
+  Proof. exact (trajectory_covariant (vo := SV) (Lst kr kT g c) (c0st g shift c) step step' fl fl'). Qed.
 End C12_whole_state.
 
 (** Non-vacuity of the whole-state hypotheses over Qc: ku = 3, kg = 2, kr = 6, kL = 1/2, kT = 5,
@@ -725,6 +813,38 @@ Proof.
   split; apply Qc_is_canon; vm_compute; reflexivity.
 Qed.
 
+(** Non-vacuity of the round-2 hypotheses over Qc: one layer, two total wavenumbers on the unit sphere,
+    kr = 1/3, kT = 5, kR = 1/180, kg = 2, kL = 1/2, ku = 1/6, tau = 3; [invt] = the adjugate inverse of the
+    3 x 3 implicit matrix: [okS (1/2)] holds (right inverse under the first, left inverse under the second
+    scale, both wavenumbers) and the layer thickness is non-zero. *)
+Example C12_whole_state_inverse_hyps_satisfiable :
+  let q := fun z : Q => Q2Qc z in
+  let c := mkPE 1 (q 287) (q (2 # 7)) (fun _ => q (- 7 # 10)) (fun k => match k with O => q 0 | _ => q 1 end) (fun _ => q 250) in
+  let ku := q (1 # 6) in let kr := q (1 # 3) in let kT := q 5 in let kR := q (1 # 180) in let kg := q 2 in let kL := q (1 # 2) in
+  let tau := q 3 in
+  let z2 := fun _ _ : nat => q 0 in
+  let g := mkHG 1 2 2 2 (q 1) z2 (fun _ => z2) (fun _ => q 1) z2 z2 (fun _ => q 1) (fun _ => q 0) (q (1 # 10)) in
+  let invt := fun (eta : Qc) (l : nat) => inv3 (implicit_matrix c eta (Deriv.lap_eig 2 (q 1) l)) in
+  let invt' := fun (eta : Qc) (l : nat) => inv3 (implicit_matrix (scale_cfg kT kR c) eta (Deriv.lap_eig 2 (kL * q 1) l)) in
+  ku * kg = kr /\ kR * kT * kg = ku * kr /\ kL * kg = 1 /\ tau * kr = 1 /\
+  thickness (cb c) 0%nat <> 0 /\ thickness (cb c) (cK c - 1)%nat <> 0 /\
+  okS kr kT kR kL g c tau invt invt' (q (1 # 2)).
+Proof.
+  cbv zeta.
+  split; [apply Qc_is_canon; vm_compute; reflexivity|].
+  split; [apply Qc_is_canon; vm_compute; reflexivity|].
+  split; [apply Qc_is_canon; vm_compute; reflexivity|].
+  split; [apply Qc_is_canon; vm_compute; reflexivity|].
+  split; [intro H; vm_compute in H; discriminate H|].
+  split; [intro H; vm_compute in H; discriminate H|].
+  intros l Hl. cbn [hL] in Hl.
+  destruct l as [|[|l]]; try (exfalso; lia);
+    (split; intros i j Hi Hj;
+     destruct i as [|[|[|i]]]; try (exfalso; cbn in Hi; lia);
+     destruct j as [|[|[|j]]]; try (exfalso; cbn in Hj; lia);
+     apply Qc_is_canon; vm_compute; reflexivity).
+Qed.
+
 Print Assumptions C12_factor_homomorphism.
 Print Assumptions C12_welldim_homogeneous.
 Print Assumptions C12_scale_independence.
@@ -751,3 +871,10 @@ Print Assumptions C12_concrete_operators_homogeneous.
 Print Assumptions C12_whole_state_tendencies_covariant.
 Print Assumptions C12_whole_state_step_covariant_partial.
 Print Assumptions C12_whole_state_hyps_satisfiable.
+Print Assumptions C12_whole_state_inverse_covariant.
+Print Assumptions C12_whole_state_reads_range.
+Print Assumptions C12_whole_state_space.
+Print Assumptions C12_whole_state_step_covariant.
+Print Assumptions C12_whole_state_trajectory_covariant.
+Print Assumptions C12_whole_state_inverse_hyps_satisfiable.
+Print Assumptions C12_whole_state_tracers_covariant.
